@@ -86,5 +86,10 @@ def main(tier, seed):
 
 
 def replay(obj):
+    if obj.get("engine") == "store":
+        from ..storemachine import run_store_program
+
+        r = run_store_program(obj["program"])
+        return r["ok"], (r["violation"] or {}).get("detail")
     r = run_program(obj["program"], observers=("content",))
     return r["ok"], (r["violation"] or {}).get("detail")
